@@ -107,22 +107,27 @@ def is_bool_shape(b: ast.expr) -> bool:
 
 # ------------------------------------------------------------------ generators
 
-def untyped_shape(e):
+def untyped_shape(e, bound=()):
     """receivers whose type the follower cannot know (see ASSUME: residual of F21)"""
     if isinstance(e, ast.Name):
-        return e.id not in ("abs", "len")       # registered functions are typed Callable
+        # registered functions are typed Callable; a parameter of an immediately called lambda has its argument's type
+        return e.id not in ("abs", "len") and e.id not in bound
     if isinstance(e, (ast.Attribute, ast.Subscript)):
-        return untyped_shape(e.value)
+        return untyped_shape(e.value, bound)
     if isinstance(e, ast.Call):
         return not isinstance(e.func, ast.Name)
     return False
 
 
 def in_grammar(e) -> bool:
+    # parameters of immediately called lambdas (Properties/C10.v: inside such a body a parameter is not an untyped
+    # receiver; taken for the whole expression here, which only narrows the set the oracle is applied to)
+    bound = {a.arg for n in ast.walk(e) if isinstance(n, ast.Call) and isinstance(n.func, ast.Lambda)
+             for a in n.func.args.args}
     for n in ast.walk(e):
         if isinstance(n, ast.Call):
             f = n.func
-            if isinstance(f, ast.Subscript) and isinstance(f.value, ast.Attribute) and not untyped_shape(f.value.value):
+            if isinstance(f, ast.Subscript) and isinstance(f.value, ast.Attribute) and not untyped_shape(f.value.value, bound):
                 return False
             if isinstance(f, ast.Name) and f.id in ("abs", "len") and not n.args and any(k.arg == "x" for k in n.keywords):
                 return False
